@@ -681,9 +681,15 @@ class TextXVisitor(RRELVisitor):
                 return
 
             if isinstance(rule, OrderedChoice):
+                # Each alternative starts with the attributes assigned so far
+                # in the enclosing sequence. Attributes assigned in any of the
+                # alternatives are seen by the rest of the enclosing sequence.
+                branch_sets = []
                 for on in rule.nodes:
-                    oc_branch_set = set()
-                    _update_attr_multiplicities(on, oc_branch_set, mult)
+                    branch_set = set(oc_branch_set)
+                    _update_attr_multiplicities(on, branch_set, mult)
+                    branch_sets.append(branch_set)
+                oc_branch_set.update(*branch_sets)
             else:
                 if isinstance(rule, OneOrMore):
                     mult = MULT_ONEORMORE
